@@ -24,8 +24,8 @@ import (
 //     the property's rules must report a violation that the unchanged tree does not have;
 //   - every repaired defect of the property listed under "fixed" in known_findings.json: the fix commit
 //     is reverse-applied, and the rules must report the defect again;
-//   - every behaviour-preserving edit kept under <verif>/benign/<property>-n: the rules must stay
-//     silent (no violation beyond those of the unchanged tree).
+//   - every behaviour-preserving edit kept under <verif>/benign/ (whichever property it was written
+//     for): the rules must stay silent (no violation beyond those of the unchanged tree).
 //
 // A variant whose patch no longer applies to the current tree is skipped and listed. The outcome is
 // recorded in the evidence (coverage.self_test) and printed; it does not change the verdict on the
@@ -45,7 +45,13 @@ func runThorough(c *Ctx, id string) {
 	verif := c.Opt.Verif
 	var vs []variant
 	for _, kind := range []string{"seeded", "benign"} {
-		dirs, _ := filepath.Glob(filepath.Join(verif, kind, id+"-*"))
+		pat := id + "-*"
+		if kind == "benign" {
+			// an edit that preserves one property's behaviour usually touches code other rules read too:
+			// every benign edit is run against every property's rules
+			pat = "*"
+		}
+		dirs, _ := filepath.Glob(filepath.Join(verif, kind, pat))
 		sort.Strings(dirs)
 		for _, d := range dirs {
 			b, err := os.ReadFile(filepath.Join(d, "patch.diff"))
